@@ -1,6 +1,7 @@
 import BoltonsVerif.C05.Frame
 import BoltonsVerif.C05.AcceptProofs
 import BoltonsVerif.C05.AcceptMore
+import BoltonsVerif.C05.Region
 /-
 C05 — the two layers meet: what the transliteration records of its own calls (`M.obs`) is, for every
 plan, a trace with the bookkeeping facts `T` (frame principle), and - outside the one excluded region
@@ -460,12 +461,27 @@ theorem step_close_open (s s1 : St) (hs : s.step .close = some s1) : s.isOpen = 
   | true => rfl
   | false => simp [St.step] at hs
 
+theorem pub_then_none : ∀ (t : List Ev) (s s' : St), s.published = true → s.run t = some s' → publishes t = false
+  | [], _, _, _, _ => rfl
+  | ev :: t, s, s', hp, h => by
+    simp only [St.run] at h
+    cases hs : s.step ev with
+    | none => simp [hs] at h
+    | some s1 =>
+      simp only [hs] at h
+      have h1 := (published_step s s1 ev hs).1
+      have hnp : publishes [ev] = false := by
+        obtain ⟨ph, op, db, us⟩ := s
+        cases ev <;> simp [publishes] <;> cases ph <;> simp [St.step, St.published] at hs hp
+      rw [publishes_cons, hnp, Bool.false_or]
+      exact pub_then_none t s1 s' (by rw [h1, hp]; rfl) h
+
 theorem A_run_total (cfg : Cfg) (raises : Bool) : ∀ (t : List Obs) (a : A) (s' : St),
     a.s.run (oks t) = some s' →
     (a.s.phase = .init → a.s.isOpen = false) →
     (cfg.overwritePart = true ∨ a.s.phase ≠ .init ∨ headUnlink (oks t) = false) →
     (publishes (oks t) = false ∨
-      (a.failed = false ∧ listedFailed t = false ∧ raises = false ∧ (cfg.overwrite = false → Ev.renamePartDest ∉ oks t))) →
+      (a.failed = false ∧ failedBefore t = false ∧ raises = false ∧ (cfg.overwrite = false → Ev.renamePartDest ∉ oks t))) →
     ∃ a', a.run cfg raises t = some a' ∧ a'.s = s'
   | [], a, s', h, _, _, _ => by
     simp [oks, St.run] at h
@@ -528,23 +544,30 @@ theorem A_run_total (cfg : Cfg) (raises : Bool) : ∀ (t : List Obs) (a : A) (s'
               · simp at hs
           · exact Or.inr (Or.inl (step_not_init a.s s1 ev hs h0))
       have hpub1 : publishes (oks t) = false ∨
-          (a.failed = false ∧ listedFailed t = false ∧ raises = false ∧ (cfg.overwrite = false → Ev.renamePartDest ∉ oks t)) := by
+          (a.failed = false ∧ failedBefore t = false ∧ raises = false ∧ (cfg.overwrite = false → Ev.renamePartDest ∉ oks t)) := by
         rcases hpub with hl | ⟨h1, h2, h3, h4⟩
         · simp only [oks] at hl
           rw [hpc] at hl
           simp only [Bool.or_eq_false_iff] at hl
           exact Or.inl hl.2
-        · exact Or.inr ⟨h1, by simpa [listedFailed] using h2, h3, fun hh hm => h4 hh (by simp [oks, hm])⟩
+        · cases hip : isPub ev with
+          | true =>
+            -- after the publication nothing more is published: what fails afterwards does not matter
+            have hs1p : s1.published = true := by
+              rw [(published_step a.s s1 ev hs).1, publishes_single, hip]; simp
+            exact Or.inl (pub_then_none (oks t) s1 s' hs1p h)
+          | false =>
+            exact Or.inr ⟨h1, by simpa [failedBefore, hip] using h2, h3, fun hh hm => h4 hh (by simp [oks, hm])⟩
       obtain ⟨a', hr, hs'⟩ := A_run_total cfg raises t { a with s := s1 } s' h hcl1 hst1 hpub1
       exact ⟨a', by simp only [A.run, A.step, hal, if_true, hs, Option.map_some]; exact hr, hs'⟩
   | .fail l i u :: t, a, s', h, hcl, hst, hpub => by
     simp only [oks] at h hst hpub
     have hpub1 : publishes (oks t) = false ∨
-        ((a.failed || (l && !a.s.published)) = false ∧ listedFailed t = false ∧ raises = false ∧
+        ((a.failed || (l && !a.s.published)) = false ∧ failedBefore t = false ∧ raises = false ∧
           (cfg.overwrite = false → Ev.renamePartDest ∉ oks t)) := by
       rcases hpub with hl | ⟨h1, h2, h3, h4⟩
       · exact Or.inl hl
-      · simp only [listedFailed, Bool.or_eq_false_iff] at h2
+      · simp only [failedBefore, Bool.or_eq_false_iff] at h2
         exact Or.inr ⟨by simp [h1, h2.1], h2.2, h3, h4⟩
     obtain ⟨a', hr, hs'⟩ := A_run_total cfg raises t
       { a with failed := a.failed || (l && !a.s.published), ufail := a.ufail || (i && u) } s' h hcl hst hpub1
@@ -562,14 +585,14 @@ theorem A_run_total (cfg : Cfg) (raises : Bool) : ∀ (t : List Obs) (a : A) (s'
         cases h1
       have hni1 := step_not_init a.s s1 .close hs hni
       have hpub1 : publishes (oks t) = false ∨
-          ((a.failed || (l && !a.s.published)) = false ∧ listedFailed t = false ∧ raises = false ∧
+          ((a.failed || (l && !a.s.published)) = false ∧ failedBefore t = false ∧ raises = false ∧
             (cfg.overwrite = false → Ev.renamePartDest ∉ oks t)) := by
         rcases hpub with hl | ⟨h1, h2, h3, h4⟩
         · simp only [oks] at hl
           rw [publishes_cons] at hl
           simp only [Bool.or_eq_false_iff] at hl
           exact Or.inl hl.2
-        · simp only [listedFailed, Bool.or_eq_false_iff] at h2
+        · simp only [failedBefore, Bool.or_eq_false_iff] at h2
           exact Or.inr ⟨by simp [h1, h2.1], h2.2, h3, fun hh hm => h4 hh (by simp [oks, hm])⟩
       obtain ⟨a', hr, hs'⟩ := A_run_total cfg raises t
         { a with s := s1, failed := a.failed || (l && !a.s.published) } s' h (fun h0 => absurd h0 hni1)
@@ -578,29 +601,14 @@ theorem A_run_total (cfg : Cfg) (raises : Bool) : ∀ (t : List Obs) (a : A) (s'
   | .appear :: t, a, s', h, hcl, hst, hpub => by
     simp only [oks] at h hst hpub
     have hpub1 : publishes (oks t) = false ∨
-        (a.failed = false ∧ listedFailed t = false ∧ raises = false ∧ (cfg.overwrite = false → Ev.renamePartDest ∉ oks t)) := by
+        (a.failed = false ∧ failedBefore t = false ∧ raises = false ∧ (cfg.overwrite = false → Ev.renamePartDest ∉ oks t)) := by
       rcases hpub with hl | ⟨h1, h2, h3, h4⟩
       · exact Or.inl hl
-      · exact Or.inr ⟨h1, by simpa [listedFailed] using h2, h3, h4⟩
+      · exact Or.inr ⟨h1, by simpa [failedBefore] using h2, h3, h4⟩
     obtain ⟨a', hr, hs'⟩ := A_run_total cfg raises t { a with env := true } s' h hcl hst hpub1
     exact ⟨a', by simp only [A.run, A.step]; exact hr, hs'⟩
 
 /-! ### the assembly -/
-
-theorem pub_then_none : ∀ (t : List Ev) (s s' : St), s.published = true → s.run t = some s' → publishes t = false
-  | [], _, _, _, _ => rfl
-  | ev :: t, s, s', hp, h => by
-    simp only [St.run] at h
-    cases hs : s.step ev with
-    | none => simp [hs] at h
-    | some s1 =>
-      simp only [hs] at h
-      have h1 := (published_step s s1 ev hs).1
-      have hnp : publishes [ev] = false := by
-        obtain ⟨ph, op, db, us⟩ := s
-        cases ev <;> simp [publishes] <;> cases ph <;> simp [St.step, St.published] at hs hp
-      rw [publishes_cons, hnp, Bool.false_or]
-      exact pub_then_none t s1 s' (by rw [h1, hp]; rfl) h
 
 theorem publishes_of_mem_rename (t : List Ev) (h : Ev.renamePartDest ∈ t) : publishes t = true := by
   induction t with
@@ -688,19 +696,20 @@ theorem ginv_run (P : Option Nat → Prop) (ino0 : List Inode) : ∀ (t : List E
 /-- **Every run of the transliteration is an accepted trace** - for every configuration, initial state,
     with-block script and every fault plan without interference by another process (and without an
     injected ENOENT, which `os.stat` answers by "absent"): what `runScript` records of its own calls is
-    accepted by `Accept`, outside the one region excluded throughout (overwrite=False, the `link`
-    succeeded and the `unlink` of the part file after it failed: an exception although published). -/
+    accepted by `Accept` - including the runs in which the caller gets an exception although the save is
+    published (overwrite=False, the `link` succeeded and the `unlink` of the part file after it failed),
+    a region excluded before `runScript_pubClean` (Region.lean). -/
 theorem runScript_accepted (cfg : Cfg) (sc : Script) (plan : Plan) (fs0 : FS) (e : Nat)
-    (hne : ∀ k, plan k ≠ .appear) (hnn : ∀ k, plan k ≠ .fail ENOENT)
-    (hreg : (runScript cfg sc plan fs0 e).1 = .ok ∨ (runScript cfg sc plan fs0 e).2.published = false) :
+    (hne : ∀ k, plan k ≠ .appear) (hnn : ∀ k, plan k ≠ .fail ENOENT) :
     Accept cfg sc.raises (decide ((runScript cfg sc plan fs0 e).1 = .ok)) sc.content fs0.umask fs0.destMode
       (runScript cfg sc plan fs0 e).2.obs = true := by
   obtain ⟨s, W, r⟩ := runScript_spec cfg fs0 e sc plan
   have ht := runScript_T cfg sc plan fs0 e
   have hx := runScript_X cfg sc plan fs0 e hne
   have henv := runScript_envDone cfg sc plan fs0 e hne
-  generalize hout : (runScript cfg sc plan fs0 e).1 = out at r hreg ⊢
-  generalize hm : (runScript cfg sc plan fs0 e).2 = m at r hreg ht hx henv ⊢
+  have hfb := runScript_pubClean cfg sc plan fs0 e hne
+  generalize hout : (runScript cfg sc plan fs0 e).1 = out at r ⊢
+  generalize hm : (runScript cfg sc plan fs0 e).2 = m at r ht hx henv hfb ⊢
   have hpubeq : s.published = m.published := res_pub r
   -- C04's automaton accepts the successful events
   have hrun : St.init.run (oks m.obs) = some s := by
@@ -716,25 +725,23 @@ theorem runScript_accepted (cfg : Cfg) (sc : Script) (plan : Plan) (fs0 : FS) (e
       rw [← headUnlink_filter, ht.oks, headUnlink_filter, ← hm]
       exact runScript_headUnlink cfg sc plan fs0 e hop
   have hside : publishes (oks m.obs) = false ∨
-      (A.init.failed = false ∧ listedFailed m.obs = false ∧ sc.raises = false ∧
+      (A.init.failed = false ∧ failedBefore m.obs = false ∧ sc.raises = false ∧
         (cfg.overwrite = false → Ev.renamePartDest ∉ oks m.obs)) := by
-    rcases hreg with hok | hnp
-    · right
-      obtain ⟨hdone, herrs, hraise⟩ := r.ok hok
-      have hsp : s.published = true := by simp [St.published, hdone]
-      refine ⟨rfl, ?_, hraise, ?_⟩
-      · cases hl : listedFailed m.obs with
-        | false => rfl
-        | true => have := ht.lf hl; omega
-      · intro how hmem
-        have hlink := (r.pub hsp).2.2.2.1 how
-        have hmem' : Ev.renamePartDest ∈ m.tr := by
-          have : Ev.renamePartDest ∈ (oks m.obs).filter notNoop := List.mem_filter.2 ⟨hmem, rfl⟩
-          rw [ht.oks] at this
-          exact (List.mem_filter.1 this).1
-        exact one_publish m.tr St.init s r.j.run hmem' hlink
-    · left
-      rw [hpubobs]; exact hnp
+    cases hpp : publishes (oks m.obs) with
+    | false => exact Or.inl rfl
+    | true =>
+      right
+      -- a publication is recorded: nothing listed failed before it (`runScript_pubClean`), the block did not raise,
+      -- and with overwrite=False it is a link - whatever happened AFTER it (the formerly excluded region included)
+      have hsp : s.published = true := by rw [hpubeq, ← hpubobs]; exact hpp
+      refine ⟨rfl, hfb hpp, (r.pub hsp).1, ?_⟩
+      intro how hmem
+      have hlink := (r.pub hsp).2.2.2.1 how
+      have hmem' : Ev.renamePartDest ∈ m.tr := by
+        have : Ev.renamePartDest ∈ (oks m.obs).filter notNoop := List.mem_filter.2 ⟨hmem, rfl⟩
+        rw [ht.oks] at this
+        exact (List.mem_filter.1 this).1
+      exact one_publish m.tr St.init s r.j.run hmem' hlink
   obtain ⟨a, harun, has⟩ := A_run_total cfg sc.raises m.obs A.init s hrun (fun _ => rfl) hstale hside
   obtain ⟨f1, f2, _⟩ := A_run_flags cfg sc.raises m.obs A.init a harun
   have haenv : a.env = false := by rw [f2, ht.env, henv]; rfl
